@@ -49,6 +49,7 @@ class Session:
         self.spans = []          # header regions discovered from Field / File events (sessions without a known form)
         self.eof = False
         self.items = []          # parts as the events delivered them: [kind, bytearray, finished]
+        self.names = []          # (kind, name, filename, content type) as the Field / File events carried them
         self.held = 0            # largest buffer left after NEED_DATA while part data is being read
 
     def consumed(self, dec):
@@ -76,10 +77,12 @@ class Session:
         elif isinstance(ev, MP.File):
             rec["ev"] = "File"
             self.items.append(["file", bytearray(), False])
+            self.names.append(("file", ev.name, ev.filename, ev.headers.get("content-type")))
             self.spans.append((before, self.consumed(dec), "file"))
         elif isinstance(ev, MP.Field):
             rec["ev"] = "Field"
             self.items.append(["field", bytearray(), False])
+            self.names.append(("field", ev.name, None, None))
             self.spans.append((before, self.consumed(dec), "field"))
         elif isinstance(ev, MP.Data):
             rec["ev"], rec["n"], rec["more"] = "Data", len(ev.data), bool(ev.more_data)
@@ -167,25 +170,42 @@ def gen_content(rnd, boundary, max_len, delim_text=False):
     return b"plain"
 
 
-def gen_form(rnd, boundary, max_parts=6, max_len=700, delim_text=False):
-    """returns (form [(kind, content)], body bytes, header spans)"""
-    form, body, spans = [], bytearray(), []
+FIELD_NAMES = ["f", "a b", "x;y", "k=v", "f\u00e9", "", "n,1", " lead", "UP", "a:b", "\u4e2d"]
+FILE_NAMES = ["a.bin", "my file.txt", "x;y.txt", "\u00fc.png", "a=b", "", "..", "c:d", "noext", "semi; colon=1.txt"]
+
+
+def gen_form(rnd, boundary, max_parts=6, max_len=700, delim_text=False, extras=False):
+    """returns (form [(kind, content)], body bytes, header spans, names [(kind, name, filename, ctype)], preamble length)
+    extras: optional preamble and epilogue, varied names / filenames (no quote, backslash or line break) and extra part headers"""
+    form, body, spans, names = [], bytearray(), [], []
+    pre = b""
+    if extras and rnd.random() < 0.4:
+        pre = rnd.choice([b"This is the preamble.", b"x", b"line one\r\nline two", b"- - -", b"\r\n"])
+        body += pre + b"\r\n"
     for i in range(rnd.randint(0, max_parts)):
         kind = "file" if rnd.random() < 0.4 else "field"
         content = gen_content(rnd, boundary, max_len, delim_text)
         body += b"--" + boundary + b"\r\n"
         hs = len(body)
         if kind == "file":
-            body += b'Content-Disposition: form-data; name="u%d"; filename="f-%d.bin"\r\nContent-Type: application/x-t' % (i, i)
+            name, fn = (rnd.choice(FIELD_NAMES), rnd.choice(FILE_NAMES)) if extras else ("u%d" % i, "f-%d.bin" % i)
+            body += ('Content-Disposition: form-data; name="%s"; filename="%s"' % (name, fn)).encode("utf-8") + b"\r\nContent-Type: application/x-t"
+            names.append(("file", name, fn, "application/x-t"))
         else:
-            body += b'Content-Disposition: form-data; name="f-%d"' % i
+            name = rnd.choice(FIELD_NAMES) if extras else "f-%d" % i
+            if extras and rnd.random() < 0.3:
+                body += b"X-First: 1\r\n"
+            body += ('Content-Disposition: form-data; name="%s"' % name).encode("utf-8")
             if rnd.random() < 0.3:
                 body += b"\r\nX-Extra: a - b"
+            names.append(("field", name, None, None))
         spans.append((hs, len(body), kind))
         body += b"\r\n\r\n" + content + b"\r\n"
         form.append((kind, content))
     body += b"--" + boundary + b"--\r\n"
-    return form, bytes(body), spans
+    if extras and rnd.random() < 0.4:
+        body += rnd.choice([b"epilogue", b"\r\n--" + boundary + b"\r\nnot a part", b"\x00\xff", b"--" + boundary + b"--\r\n"])
+    return form, bytes(body), spans, names, len(pre)
 
 
 def drive(boundary, body, rnd, mode, eof=None):
@@ -247,10 +267,10 @@ def long_sessions(ctx, wd, n, rnd, pid, hold_only=False):
         recs = []
         for i in range(n):
             if hold_only:
-                form, body, spans = gen_form(rnd, B, max_parts=2, max_len=rnd.choice((3000, 12000)), delim_text=(i % 2 == 1))
+                form, body, spans, names, _ = gen_form(rnd, B, max_parts=2, max_len=rnd.choice((3000, 12000)), delim_text=(i % 2 == 1))
                 mode, whole = "drain", True
             else:
-                form, body, spans = gen_form(rnd, B)
+                form, body, spans, names, _ = gen_form(rnd, B, extras=(i % 3 != 0))
                 whole = rnd.random() < 0.8
                 if not whole:
                     body = body[:rnd.randrange(len(body))]
@@ -266,6 +286,8 @@ def long_sessions(ctx, wd, n, rnd, pid, hold_only=False):
             elif pid == "C01" and whole and got != form:
                 ctx.violation(case, [(k, c[:40].decode("latin-1")) for k, c in form], [(k, c[:40].decode("latin-1")) for k, c in got],
                               "decoder session does not return exactly the encoded parts (long body)")
+            elif pid == "C01" and whole and s.names != names:
+                ctx.violation(case, names, s.names, "field names / file names / part content types are not the encoded ones")
             elif pid == "C01" and not whole and got != form[:len(got)]:
                 ctx.violation(case, "a prefix of the encoded parts", [(k, c[:40].decode("latin-1")) for k, c in got],
                               "a truncated body yields parts that were not encoded")
@@ -292,6 +314,34 @@ def long_sessions(ctx, wd, n, rnd, pid, hold_only=False):
                          "a behaviour of Multipart.tla", traces[tid]["events"][prefix] if prefix < len(traces[tid]["events"]) else None,
                          "recorded decoder session is not a behaviour of Multipart.tla at event %d" % (prefix + 1))
     return total_ev
+
+
+def helper_level(ctx, n, rnd):
+    """generated forms with preamble / epilogue / varied names through the four helper-level APIs under random chunkings"""
+    from .adapters import mp_common as M
+    from baize.multipart import safe_decode
+    for bi, B in enumerate(BOUNDARIES[:2]):
+        for i in range(n):
+            form, body, spans, names, _ = gen_form(rnd, B, max_parts=4, max_len=200, extras=True)
+            want = []
+            for (kind, content), (_, name, fn, ct) in zip(form, names):
+                want.append((name, safe_decode(content, "utf8")) if kind == "field" else (name, fn, ct, content))
+            maxc = rnd.choice((1, 5, 17, 64, 1000))
+            chunks, pos = [], 0
+            while pos < len(body):
+                k = rnd.randint(0 if rnd.random() < 0.05 else 1, maxc)
+                chunks.append(body[pos:pos + k])
+                pos += k
+            for which in (("sync", "async", "wsgi", "asgi") if i % 4 == 0 else (("sync", "asgi") if i % 2 else ("async", "wsgi"))):
+                out, items = M.run_helper(which, chunks, B)
+                ctx.count()
+                ctx.traces_validated += 1
+                if out != "ok" or items != want:
+                    ctx.violation({"body": body[:300].decode("latin-1"), "body_len": len(body), "max_chunk": maxc, "api": which, "boundary": B.decode()},
+                                  [w[:3] for w in want], {"outcome": out, "items": [it[:3] for it in (items or [])]},
+                                  "%s does not return exactly the encoded parts (names, file names, preamble / epilogue present)" % which)
+            if any(len(c) > 0 for _, c in form):
+                ctx.nontriv(("helper-gen", bi, i))
 
 
 def pytest_sessions(ctx, wd, repo, verif):
